@@ -9,6 +9,10 @@ Seeded-change bookkeeping.
                                                  /verif/seeded/<Cnn>-<k>/ (patch.diff, demo.py, notes.md, meta.json)
   tools/seeded.py run [<id> …]                   run the registered check of each kept change again (all by default)
                                                  against a scratch worktree with the change applied; update meta.json
+  tools/seeded.py neutral <Cnn> <k> [--src DIR]  a property-PRESERVING change (DIR/patch<k>.diff, probe<k>.py, notes<k>.md; default
+                                                 DIR=/tmp/neu_<Cnn>_out): tests pass, probe output unchanged, and the check must stay
+                                                 silent (exit 0, no VIOLATION line); stored under /verif/neutral/<Cnn>-<k>/
+  tools/seeded.py neutral-run [<id> …]           re-run the checks against the kept neutral changes
   tools/seeded.py table                          markdown table of which check catches which change
 
 Scratch worktrees live under /tmp and are removed as soon as each step is done; /repo itself is never modified.
@@ -132,6 +136,62 @@ def verify(prop, k, src=None, store_as=None):
     return meta.get("confirmed", False)
 
 
+def neutral(prop, k, src=None):
+    """a behaviour-preserving change written by a sub-agent: tests pass, probe output unchanged, the check must stay silent"""
+    src = Path(src or f"/tmp/neu_{prop}_out")
+    patch, probe, notes = src / f"patch{k}.diff", src / f"probe{k}.py", src / f"notes{k}.md"
+    if not patch.exists():
+        raise SystemExit(f"missing {patch}")
+    meta = {"property": prop, "kind": "neutral (property-preserving) change",
+            "source": "independent sub-agent given only the property text and a scratch worktree",
+            "verified_at": time.strftime("%Y-%m-%dT%H:%M:%SZ", time.gmtime())}
+    with Worktree(f"neu_{prop}_{k}") as wt:
+        out0 = run_demo(wt, probe)[1] if probe.exists() else None
+        rc, out = sh(f"git -C {wt} apply {patch}")
+        if rc:
+            meta["apply_error"] = out
+            print(json.dumps(meta, indent=1))
+            return False
+        ok, msg = run_tests(wt)
+        meta["pinned_tests_with_change"] = msg
+        out1 = run_demo(wt, probe)[1] if probe.exists() else None
+        strip = lambda t: re.sub(r"/tmp/\S+", "<path>", t or "")
+        meta["probe_output_identical"] = strip(out0) == strip(out1)
+        meta["check"] = run_check(prop, wt)
+        meta["silent"] = meta["check"]["exit"] == 0 and not meta["check"]["violation_lines"]
+    d = V / "neutral" / f"{prop}-{k}"
+    d.mkdir(parents=True, exist_ok=True)
+    shutil.copy(patch, d / "patch.diff")
+    if probe.exists():
+        shutil.copy(probe, d / "probe.py")
+    if notes.exists():
+        shutil.copy(notes, d / "notes.md")
+        meta["summary"] = notes.read_text().strip().split("\n")[0].lstrip("# ").strip()
+    meta["what_was_run"] = ["git worktree add <scratch> HEAD; probe.py", "git apply patch.diff; pytest test; probe.py (same output)",
+                            f"EVO_REPO=<scratch> ./check {prop} quick (must exit 0 without VIOLATION)"]
+    (d / "meta.json").write_text(json.dumps(meta, indent=1))
+    print(prop, k, "tests:", msg[:60], "| probe identical:", meta["probe_output_identical"], "| check exit", meta["check"]["exit"],
+          meta["check"]["violation_lines"][:1], meta["check"]["wall_s"], "s")
+    return meta["silent"]
+
+
+def neutral_rerun(ids):
+    for mf in sorted((V / "neutral").glob("*/meta.json")):
+        sid = mf.parent.name
+        if ids and sid not in ids and sid.split("-")[0] not in ids:
+            continue
+        meta = json.loads(mf.read_text())
+        with Worktree("neu_" + sid.replace("-", "_")) as wt:
+            rc, out = sh(f"git -C {wt} apply {mf.parent / 'patch.diff'}")
+            if rc:
+                print(sid, "patch does not apply:", out[:200])
+                continue
+            meta["check"] = run_check(meta["property"], wt)
+            meta["silent"] = meta["check"]["exit"] == 0 and not meta["check"]["violation_lines"]
+        mf.write_text(json.dumps(meta, indent=1))
+        print(sid, "silent" if meta["silent"] else "ALARM", meta["check"]["exit"], meta["check"]["violation_lines"][:1], meta["check"]["wall_s"], "s")
+
+
 def first_para(t):
     t = t.strip()
     return t[:700]
@@ -233,6 +293,11 @@ if __name__ == "__main__":
         also(a[1], a[2:])
     elif a and a[0] == "table":
         table()
+    elif a and a[0] == "neutral":
+        src = a[a.index("--src") + 1] if "--src" in a else None
+        sys.exit(0 if neutral(a[1], a[2], src) else 1)
+    elif a and a[0] == "neutral-run":
+        neutral_rerun(a[1:])
     elif a and a[0] == "compact":
         print(compact())
     elif a and a[0] == "splice":
